@@ -18,7 +18,7 @@ Theorem C12_gzip_transparent :
   forall (Res : Type) (search : list Z -> Res) (empty : Res),
   search [] = empty ->
   forall f g, wf f -> wf g -> stream f = stream g ->
-  Gzip.execute Res search empty f = execute Res search empty g.
+  Gzip.execute Res search empty f = Gzip.execute Res search empty g.
 Proof. exact gzip_transparent. Qed.
 
 (* every non-empty file takes exactly one of the two branches and both call
